@@ -1,0 +1,97 @@
+//! Verification hooks for the linear-code schemes (only with `--cfg arkworks_rs_poly_commit_verif`
+//! or under Kani): public wrappers and accessors, no behaviour of their own.
+use super::data_structures::{LinCodePCCommitment, LinCodePCCommitmentState, LinCodePCProof};
+use crate::Error;
+use ark_crypto_primitives::{
+    crh::CRHScheme,
+    merkle_tree::{Config, Path},
+    sponge::CryptographicSponge,
+};
+use ark_ff::{FftField, PrimeField};
+#[cfg(not(feature = "std"))]
+use ark_std::vec::Vec;
+
+/// `linear_codes::utils::get_num_bytes`
+pub fn get_num_bytes(n: usize) -> usize {
+    super::utils::get_num_bytes(n)
+}
+/// `linear_codes::utils::get_indices_from_sponge`
+pub fn get_indices_from_sponge<S: CryptographicSponge>(
+    n: usize,
+    t: usize,
+    sponge: &mut S,
+) -> Result<Vec<usize>, Error> {
+    super::utils::get_indices_from_sponge(n, t, sponge)
+}
+/// `linear_codes::utils::calculate_t`
+pub fn calculate_t<F: PrimeField>(
+    sec_param: usize,
+    distance: (usize, usize),
+    codeword_len: usize,
+) -> Result<usize, Error> {
+    super::utils::calculate_t::<F>(sec_param, distance, codeword_len)
+}
+/// `linear_codes::utils::reed_solomon`
+pub fn reed_solomon<F: FftField>(msg: &[F], rho_inv: usize) -> Vec<F> {
+    super::utils::reed_solomon(msg, rho_inv)
+}
+/// `linear_codes::utils::tensor_vec`
+pub fn tensor_vec<F: PrimeField>(values: &[F]) -> Vec<F> {
+    super::utils::tensor_vec(values)
+}
+
+impl<F: PrimeField, C: Config> LinCodePCProof<F, C> {
+    /// (paths, v, columns, well_formedness)
+    pub fn verif_parts_mut(
+        &mut self,
+    ) -> (
+        &mut Vec<Path<C>>,
+        &mut Vec<F>,
+        &mut Vec<Vec<F>>,
+        &mut Option<Vec<F>>,
+    ) {
+        (
+            &mut self.opening.paths,
+            &mut self.opening.v,
+            &mut self.opening.columns,
+            &mut self.well_formedness,
+        )
+    }
+    /// (paths, v, columns, well_formedness)
+    pub fn verif_parts(&self) -> (&Vec<Path<C>>, &Vec<F>, &Vec<Vec<F>>, &Option<Vec<F>>) {
+        (
+            &self.opening.paths,
+            &self.opening.v,
+            &self.opening.columns,
+            &self.well_formedness,
+        )
+    }
+}
+
+impl<C: Config> LinCodePCCommitment<C> {
+    /// (n_rows, n_cols, n_ext_cols, root)
+    pub fn verif_parts(&self) -> (usize, usize, usize, &C::InnerDigest) {
+        (
+            self.metadata.n_rows,
+            self.metadata.n_cols,
+            self.metadata.n_ext_cols,
+            &self.root,
+        )
+    }
+    /// (n_rows, n_cols, n_ext_cols, root)
+    pub fn verif_parts_mut(&mut self) -> (&mut usize, &mut usize, &mut usize, &mut C::InnerDigest) {
+        (
+            &mut self.metadata.n_rows,
+            &mut self.metadata.n_cols,
+            &mut self.metadata.n_ext_cols,
+            &mut self.root,
+        )
+    }
+}
+
+impl<F: PrimeField, H: CRHScheme> LinCodePCCommitmentState<F, H> {
+    /// (rows of the coefficient matrix, rows of the encoded matrix, column hashes)
+    pub fn verif_parts(&self) -> (Vec<Vec<F>>, Vec<Vec<F>>, &Vec<H::Output>) {
+        (self.mat.rows(), self.ext_mat.rows(), &self.leaves)
+    }
+}
